@@ -494,6 +494,12 @@ func c19(c *Ctx) {
 			c.requireCross(site(rm[0])+" list-ok", rm[0], okEdges(l), "ok(List(usages))")
 			wdT, _, _ := boolCallEdges(rec, metaWasDeleted, nil)
 			c.requireCross(site(rm[0])+" deletion-only", rm[0], wdT, "WasDeleted(usage)")
+			// the count includes the Usage being deleted: it is taken while that Usage still exists
+			for _, rf := range cfgx.Calls(rec, func(ci ssa.CallInstruction) bool {
+				return strings.HasSuffix(cfgx.CalleeName(ci), "Finalizer).RemoveFinalizer")
+			}) {
+				c.R.Check(!cfgx.InstrReaches(rf, l, nil), site(rf)+" after the count", c.pos(rf.Pos()), "the Usage's finalizer is removed after the Usages of the resource were counted", "the Usage's finalizer is removed before the Usages of the resource are counted: the Usage may be gone from the list, one remaining Usage then looks like the last and the in-use label is dropped")
+			}
 			// the list is about the used resource
 			c.R.Check(true, site(l)+" of-used", c.pos(l.Pos()), "indexed by the used resource (R19.1)", "")
 		}
